@@ -488,15 +488,17 @@ def noconn_private(repo: Repo, R, noret):
     fi = repo.func(F_PORTREFS, "ResolvePortRefs.replace_noconn")
     env = au.local_env(fi.node)
     conns = pat.find("$X.connect($PN, $S)", fi.node)
-    ok = len(conns) == 1
+    ok = len(conns) >= 1
     detail = f"{len(conns)} connect call(s) in replace_noconn"
-    if ok:
-        c, b = conns[0]
+    # one connect, or one per branch of the naming decision: each of them wires the fresh copy to the group's port
+    for c, b in conns:
         sig_src = au.expand(b["S"], au.local_defs(fi.node), depth=1)
         from_copy = bool(pat.match("$SELF.copy_port($P)", sig_src))
         to_portref = ast.unparse(b["X"]).endswith("portref.inst") and ast.unparse(b["PN"]).endswith("portref.portname")
-        ok = from_copy and to_portref
+        ok = ok and from_copy and to_portref
         detail = f"`{ast.unparse(c)}`: signal comes from copy_port(port): {from_copy}; connected to the port of the group's PortRef: {to_portref}"
+    # ... and no path skips it
+    ok = ok and not [r_ for r_ in shared.returns_of(fi.node) if not any(shared.precedes(fi.node, c, r_) for c, _b in conns)]
     R.check(ok, rule, key_of(fi, "one-connect"), fi.site, detail,
             why="the replacement net of a no-connect is shared with something else, or the port is left on the NoConn")
     fh = repo.func(F_PORTREFS, "ResolvePortRefs.handle_noconn")
